@@ -614,3 +614,163 @@ def qstream_algebra(ctx, rid):
     ctx.check(rid, "try_from_varint guard", [l for _, l in sg] == ["return Result::Err(InvalidQStreamId)", "return Result::Ok(QStreamId(varint))"] and
               all(len(a) == 1 and "QStreamId::into_varint(QStreamId::MAX" in a[0] and "varint" in a[0] for a, _ in sg),
               "QStreamId::try_from_varint is not `varint <= MAX`: %s" % sg, where(f))
+
+
+# ------------------------------------------------------------------ QPACK
+
+QSTATIC = json.load(open(os.path.join(VERIF, "spec", "qpack_static.json")))["table"]
+
+
+def _calls_with_cargs(p, rx):
+    return [(e[1].split("::")[-1], tuple(e[5].get("cargs") or ()), e) for e in p.events if e[0] == "call" and re.search(rx, e[1])]
+
+
+def qpack_static_table(ctx, rid):
+    """static table == RFC 9204 Appendix A, all 99 rows by index; one definition shared by encoder and decoder"""
+    c = ctx.A.const("wtransport_proto::qpack::StaticTable::STATIC_TABLE")
+    mem = c.get("val", {}).get("mem")
+    ok = isinstance(mem, list) and len(mem) == len(QSTATIC)
+    ctx.check(rid, "static table length", ok, "QPACK static table has %s rows, RFC 9204 Appendix A has %d" % (len(mem) if isinstance(mem, list) else None, len(QSTATIC)), c["at"]["sp"])
+    if ok:
+        for i, (row, want) in enumerate(zip(mem, QSTATIC)):
+            ctx.check(rid, "static[%d]" % i, list(row) == list(want), "QPACK static table row %d is %s, RFC 9204 Appendix A says %s" % (i, row, want), c["at"]["sp"])
+    f = ctx.A.fn("wtransport_proto::qpack::StaticTable::lookup_field")
+    sg = [path_sig(p)[1] for p in nonpanic(walk(f))]
+    ctx.check(rid, "lookup_field indexes the table", sg == ["return Option::cloned(<impl [T]>::get(&*(StaticTable::STATIC_TABLE as &[(&str, &str)]),index))"] or (len(sg) == 1 and "STATIC_TABLE" in sg[0] and "get(" in sg[0] and ",index)" in sg[0]),
+              "StaticTable::lookup_field is not STATIC_TABLE.get(index): %s" % sg, where(f))
+    g = ctx.A.find1(r"^wtransport_proto::qpack::StaticTable::lookup_index$")
+    ev = [e for p in nonpanic(walk(g)) for e in event_strs(p)]
+    ctx.check(rid, "lookup_index scans the same table", any("StaticTable::STATIC_TABLE" in e and "iter(" in e for e in ev) and any("enumerate" in e for e in ev),
+              "StaticTable::lookup_index does not enumerate STATIC_TABLE", where(g))
+
+
+def qpack_representations(ctx, rid):
+    """encoder and decoder agree on the field-line representations of RFC 9204 §4.5 (prefix widths, pattern bits, T bits, H flag)"""
+    A = ctx.A
+    enc = A.fn("wtransport_proto::qpack::Encoder::encode")
+    with depth_limit(3):
+        paths = walk(enc)
+        got = set()
+        prefix = None
+        for p in paths:
+            cs = _calls_with_cargs(p, r"Encoder::encode_(integer|string)$")
+            if prefix is None and len(cs) >= 2:
+                prefix = [(n, cg, const_val(e[2][0])) for n, cg, e in cs[:2]]
+            which = [a.split(" is ")[-1] for a in path_sig(p)[0] if re.search(r"lookup_index\(.*\) (as Some\)\.0 )?is (KeyValue|KeyOnly|None)$", a)]
+            body = [(n, cg, const_val(e[2][0])) for n, cg, e in cs[2:]]
+            if which:
+                got.add((which[-1], tuple(body)))
+    want = {
+        ("KeyValue", (("encode_integer", (6,), 0b11),)),
+        ("KeyOnly", (("encode_integer", (4,), 0b0101), ("encode_string", (7,), 0))),
+        ("None", (("encode_string", (3,), 0b10), ("encode_string", (7,), 0))),
+    }
+    ctx.check(rid, "encoder section prefix", prefix == [("encode_integer", (8,), 0), ("encode_integer", (7,), 0)],
+              "Encoder::encode does not start with Required-Insert-Count <8>(0,0) and Delta-Base <7>(0,0): %s" % prefix, where(enc))
+    ctx.check(rid, "encoder representations", got == want,
+              "Encoder::encode field-line patterns differ from RFC 9204 §4.5.2/4.5.4/4.5.6 (indexed static 1 1 <6>, name-ref static 0 1 N=0 1 <4>, literal 0 0 1 N=0 <3>): %s" % sorted(got), where(enc))
+    ctx.sample({"rule": rid, "encoder_patterns": sorted(str(x) for x in got)})
+    dec = A.fn("wtransport_proto::qpack::Decoder::decode")
+    with depth_limit(3):
+        paths = walk(dec)
+        rows = set()
+        for p in paths:
+            a = path_sig(p)[0]
+            kind = [x.split(" is ")[-1] for x in a if "decode_field_line_type(" in x]
+            tb = [x for x in a if x.startswith("BitAnd(") and ("!= 0" in x or "== 0" in x)]
+            cs = tuple((n, cg) for n, cg, e in _calls_with_cargs(p, r"Decoder::decode_(integer|string)$")[2:])
+            leaf = path_sig(p)[1]
+            if kind:
+                tbit = None
+                if tb:
+                    m = re.search(r",(\d+)\) (!=|==) 0$", tb[-1])
+                    tbit = (int(m.group(1)), m.group(2)) if m else None
+                outcome = "continue" if leaf == "continue" else ("Dynamic" if "DynamicNotSupported" in leaf else ("IndexNotfound" if "IndexNotfound" in leaf else "err"))
+                rows.add((kind[-1], tbit, cs, outcome))
+    need = {
+        ("Indexed", (64, "!="), (("decode_integer", (6,)),), "continue"),
+        ("Indexed", (64, "=="), (), "Dynamic"),
+        ("IndexedPost", None, (), "Dynamic"),
+        ("LiteralRefName", (16, "!="), (("decode_integer", (4,)), ("decode_string", (7,))), "continue"),
+        ("LiteralRefName", (16, "=="), (), "Dynamic"),
+        ("LiteralPostRefName", None, (), "Dynamic"),
+        ("LiteralLitName", None, (("decode_string", (3,)), ("decode_string", (7,))), "continue"),
+    }
+    missing = need - rows
+    ctx.check(rid, "decoder representations", not missing, "Decoder::decode lacks the RFC 9204 §4.5 rows %s (has %s)" % (sorted(str(x) for x in missing), sorted(str(x) for x in rows if x[3] in ("continue", "Dynamic"))), where(dec))
+    okacc = {r for r in rows if r[3] == "continue"}
+    ctx.check(rid, "decoder accepts only static/literal forms", okacc == {r for r in need if r[3] == "continue"}, "Decoder::decode accepts other representations: %s" % sorted(str(x) for x in okacc), where(dec))
+    # Huffman flag = lowest flag bit; string length from the prefix integer
+    ds = A.find1(r"^wtransport_proto::qpack::Decoder::decode_string$")
+    with depth_limit(5):
+        a = {x for p in walk(ds) for x in path_sig(p)[0] if x.startswith("BitAnd(ok(Decoder::decode_integer")}
+    ctx.check(rid, "H flag", len(a) == 2 and all(re.match(r"^BitAnd\(ok\(Decoder::decode_integer\(.*\)\)\.0,1\) (==|!=) 1$", x) for x in a), "decode_string's Huffman flag is not `flags & 1`: %s" % sorted(a), where(ds))
+    es = A.find1(r"^wtransport_proto::qpack::Encoder::encode_string$")
+    with depth_limit(4):
+        fl = {m.group(0) for p in walk(es) for x in path_sig(p)[0] for m in [re.search(r"encode_integer\(BitOr\(Shl\(flags,1\),\((0|1) as u8\)\)", x)] if m}
+    ctx.check(rid, "encode_string flag = (flags<<1)|H", len(fl) == 2, "encode_string does not emit (flags << 1) | is_huffman: %s" % sorted(fl), where(es))
+
+
+def prefix_integer_constants(ctx, rid):
+    """encode_integer / decode_integer use the same mask (1<<N)-1 and 7-bit continuation groups (0x7f / 0x80 / +7)"""
+    A = ctx.A
+    d = A.find1(r"^wtransport_proto::qpack::Decoder::decode_integer$")
+    e = A.find1(r"^wtransport_proto::qpack::Encoder::encode_integer$")
+    with depth_limit(6):
+        da = [x for p in walk(d) for x in path_sig(p)[0]]
+        ea = [x for p in walk(e) for x in path_sig(p)[0]]
+        dl = [path_sig(p)[1] for p in walk(d)]
+    ctx.check(rid, "decode mask (1<<N)-1", any("SubWithOverflow(Shl(1,N),1).0) ==" in x or "SubWithOverflow(Shl(1,N),1).0) !=" in x for x in da), "decode_integer prefix mask is not (1 << N) - 1", where(d))
+    ctx.check(rid, "encode mask (1<<N)-1", any(x.startswith("value < SubWithOverflow(Shl(1,N),1).0") for x in ea) and any(x.startswith("value >= SubWithOverflow(Shl(1,N),1).0") for x in ea), "encode_integer prefix test is not value < (1 << N) - 1", where(e))
+    ctx.check(rid, "decode continuation bit 0x80", any(re.search(r",128\) (!=|==) 0$", x) for x in da), "decode_integer continuation test is not byte & 0x80", where(d))
+    ctx.check(rid, "decode group mask 0x7f", any(",127)" in x for x in da), "decode_integer group mask is not 0x7f", where(d))
+    ctx.check(rid, "encode continuation 0x80 / threshold 128", any(x == "rem@loop >= 128" for x in ea) and any(",128)]" in x for x in ea), "encode_integer does not emit `rem | 0x80` while rem >= 0x80", where(e))
+    st = set()
+    for fn in (d, e):
+        for p in walk(fn):
+            for ev in p.events:
+                if ev[0] == "assert" and ev[1].startswith("Overflow(") and len(ev[2]) == 2:
+                    st.add((fn.path.split("::")[-1], ev[1], canon(ev[2][1])))
+    ctx.check(rid, "power += 7 / rem >>= 7", ("decode_integer", "Overflow(Add)", "7") in st and ("encode_integer", "Overflow(Shr)", "7") in st,
+              "prefix-integer group width is not 7 on both sides: %s" % sorted(st), where(d))
+    flags = [x for x in dl if x.startswith("return Result::Ok(((Shr(")]
+    ctx.check(rid, "decode flags = byte >> N", bool(flags) and all(re.match(r"^return Result::Ok\(\(\(Shr\(.*,N\) as u8\),", x) for x in flags), "decode_integer flags are not byte >> N", where(d))
+
+
+def preamble_writers(ctx, rid):
+    """StreamHeader::write(_async) and Frame::write(_async) for the WebTransport kind emit exactly [varint kind.id(), varint session_id]"""
+    A = ctx.A
+    for path, asy in (("wtransport_proto::stream_header::StreamHeader::write", False), ("wtransport_proto::stream_header::StreamHeader::write_async::{closure#0}", True),
+                      ("wtransport_proto::frame::Frame::write", False), ("wtransport_proto::frame::Frame::write_async::{closure#0}", True)):
+        f = A.fn(path)
+        ty = "StreamHeader" if "StreamHeader" in path else "Frame"
+        seqs = set()
+        for p in nonpanic(walk(f)):
+            if p.leaf[0] != "return" or not path_sig(p)[1].startswith("return Result::Ok"):
+                continue
+            seq = []
+            for e in event_strs(p):
+                m = re.match(r"^(?:<.*? as )?(?:BytesWriter|BytesWriterAsync)>?::(put_varint|put_bytes|put_buffer)\((.*)\)$", e)
+                if m:
+                    arg = m.group(2)
+                    what = "kind.id" if re.search(r"%sKind::id\(\*?self\.kind\)" % ("Stream" if ty == "StreamHeader" else "Frame"), arg) else \
+                           ("session_id" if "SessionId::into_varint(" in arg else ("payload.len" if "len(" in arg else ("payload" if "self.payload" in arg else "?")))
+                    seq.append(m.group(1).replace("put_buffer", "put_bytes") + ":" + what)
+            wt = any(re.search(r"%s::session_id\(&\*self\) is Some$" % ty, a) for a in path_sig(p)[0])
+            seqs.add((wt, tuple(seq)))
+        want = {(True, ("put_varint:kind.id", "put_varint:session_id"))}
+        if ty == "StreamHeader":
+            want.add((False, ("put_varint:kind.id",)))
+        else:
+            want.add((False, ("put_varint:kind.id", "put_varint:payload.len", "put_bytes:payload")))
+        ctx.check(rid, "%s wire sequence" % path.replace("wtransport_proto::", ""), seqs == want, "%s emits %s, expected %s" % (path, sorted(seqs), sorted(want)), where(f))
+    for ty, mod in (("StreamHeader", "stream_header"), ("Frame", "frame")):
+        f = A.fn("wtransport_proto::%s::%s::new_webtransport" % (mod, ty))
+        sg = [path_sig(p)[1] for p in nonpanic(walk(f))]
+        kind = "StreamKind" if ty == "StreamHeader" else "FrameKind"
+        ctx.check(rid, "%s::new_webtransport" % ty, len(sg) == 1 and re.match(r"^return %s::new\(%s::WebTransport,(Cow::Owned\(.*\),)?Option::Some\(session_id\)\)$" % (ty, kind), sg[0]) is not None,
+                  "%s::new_webtransport does not build (WebTransport, Some(session_id)): %s" % (ty, sg), where(f))
+        f = A.fn("wtransport_proto::%s::%s::session_id" % (mod, ty))
+        sg = sorted(path_sig(p) for p in nonpanic(walk(f)))
+        want = sorted([(("*self.kind is WebTransport",), "return <impl bool>::then(1,closure:%s::{closure#0})" % ty), (("*self.kind isnot WebTransport",), "return <impl bool>::then(0,closure:%s::{closure#0})" % ty)])
+        ctx.check(rid, "%s::session_id" % ty, sg == want, "%s::session_id is not `matches!(kind, WebTransport).then(..)`: %s" % (ty, sg), where(f))
